@@ -276,6 +276,10 @@ def oracles(req, ev, access, prims):
                     hits.append(("C15", f"rejected {fmt} input ({kind} at {k}): destroyed {sorted(drops)}, already decoded were {sorted(want)}", li))
             elif op == "clonefrom":
                 dv, dst = regs[int(t[1])]; sv, sst = regs[int(t[2])]
+                # clone-assignment destroys the target's previous contents exactly once (and nothing else)
+                want = sorted(lab(f, dst[f]) for f in m["variants"][dv] if fields[f]["ty"] in DROPPABLE and dst[f] is not None)
+                if sorted(drops) != want:
+                    hits.append(("C16", f"clone_from destroyed {sorted(drops)}, the target's previous contents were {want}", li))
                 for f in m["variants"][dv]:
                     x = sst[f]
                     if x is not None and fields[f]["ty"] in DROPPABLE and fields[f]["ty"] not in ZST:
@@ -360,9 +364,16 @@ def miri_pass(seed, tier):
         res["note"] = "lab generation failed: " + e[-300:]
         json.dump(res, open(marker, "w")); return res
     t0 = time.time()
-    env = dict(ENV, CARGO_TARGET_DIR=os.path.join(WORK, "miri-target"), MIRIFLAGS="-Zmiri-disable-isolation")
     outd = os.path.join(base, "out"); os.makedirs(outd, exist_ok=True)
-    rc, out, err = sh(["cargo", "+nightly", "miri", "run", "--offline", "--", outd], cwd=lab, timeout=1200 if tier == "quick" else 3600, env=env)
+    # several placements of the locals (Miri's address assignment depends on its seed): stop at the first report
+    mseeds = [0, 1, 2] if tier == "quick" else list(range(8))
+    res["miri_seeds"] = 0
+    for ms in mseeds:
+        env = dict(ENV, CARGO_TARGET_DIR=os.path.join(WORK, "miri-target"), MIRIFLAGS=f"-Zmiri-disable-isolation -Zmiri-seed={ms}")
+        rc, out, err = sh(["cargo", "+nightly", "miri", "run", "--offline", "--", outd], cwd=lab, timeout=1200 if tier == "quick" else 3600, env=env)
+        res["miri_seeds"] += 1
+        if rc != 0:
+            break
     res["wall"] = time.time() - t0
     res["modules"] = ndefs
     if "Undefined Behavior" in err:
